@@ -6,5 +6,5 @@ Extraction Language OCaml.
 Extraction "../ocaml/c16/model.ml" set_pub_key bg_set_pub_key pub_key bg_pub_key
   set_signature_by_data signature_data ks_verify bg_ks_verify
   validate_bpm_key bg_validate_bpm_key ibb_ranges validate_ibb bg_validate_ibb
-  psp_validate token_key root_key psb_key_valid psb_key_get ks_set_signature sig_set_signature km_set_signature bytelen
+  psp_validate token_key root_key validate_rtm psb_key_valid psb_key_get ks_set_signature sig_set_signature km_set_signature bytelen
   mkKey mkSig mkKS mkSeg mkSE mkKmHash mkPsbKey.
